@@ -107,9 +107,9 @@ func newMachine(rt *rapid.T, o machineOpts) *machine {
 	}
 	for i := 0; i < nd; i++ {
 		table := fmt.Sprintf("t%d", i+1)
+		shareWith := -1
 		if o.ShareTable && i > 0 && rapid.Bool().Draw(rt, "share") {
-			table = m.decls[rapid.IntRange(0, i-1).Draw(rt, "sharewith")].Table
-			m.label("shared-table")
+			shareWith = rapid.IntRange(0, i-1).Draw(rt, "sharewith")
 		}
 		do := gen.DeclOpts{Kinds: o.Kinds, NeedParent: o.NeedParent, AllowFilters: o.Filters, AllowNotify: o.Notify, Pool: m.pool,
 			Name: fmt.Sprintf("ig%d", i+1), Table: table, Event: o.Event}
@@ -119,6 +119,17 @@ func newMachine(rt *rapid.T, o machineOpts) *machine {
 		d := gen.GenDecl(rt, do)
 		if d.Event != nil && sharedEv == nil {
 			sharedEv = d.Event
+		}
+		if shareWith >= 0 {
+			// open finding C16/shared-table-unique-key-first-wins: integrations with
+			// different identity columns cannot share a table; that class is removed
+			// by construction (and counted)
+			if identitySig(m.decls[shareWith]) == identitySig(d) {
+				d.Table = m.decls[shareWith].Table
+				m.label("shared-table")
+			} else {
+				m.excl++
+			}
 		}
 		// which sources
 		for si, s := range sources {
@@ -308,4 +319,17 @@ func (m *machine) settle(quiet int, onStep func(p *Pair, r StepResult)) string {
 		return "INCONCLUSIVE: settle budget exhausted while still making progress"
 	}
 	return "no convergence: steps keep failing without progress"
+}
+
+// identitySig: which identity columns shovel adds for a declaration.
+func identitySig(d *refmodel.Decl) string {
+	sig := d.Kind()
+	if d.HasSelectedInputs() {
+		for _, s := range d.Event.Selected() {
+			if !s.Indexed {
+				return sig + "+abi_idx"
+			}
+		}
+	}
+	return sig
 }
